@@ -135,10 +135,15 @@ class Op4Ascii:
                 out.append(float(v))
         return out
 
-    def matrix(self, name, M, mtype, form, layout, strings_of):
-        ncol, nrow = len(M), len(M[0]) if M else 0
+    def matrix(self, name, M, mtype, form, layout, strings_of, wide=False, nrow=None):
+        """wide: header written as 2I16,2I8,A8,format followed by the marker |I16 (the form used when a dimension needs more than 8 characters);
+        nrow: announce more rows than the columns given hold (the rows beyond are zero)"""
+        ncol = len(M)
+        if nrow is None:
+            nrow = len(M[0]) if M else 0
         wper = 1 if mtype in (1, 3) else 2
-        self.lines.append("%8d%8d%8d%8d%-8s1P,%d%s%d.%d" % (ncol, -nrow if layout == "bigmat" else nrow, form, mtype, name.upper(), self.per, self.x, self.w, self.d))
+        iw = 16 if wide else 8
+        self.lines.append("%*d%*d%8d%8d%-8s1P,%d%s%d.%d%s" % (iw, ncol, iw, -nrow if layout == "bigmat" else nrow, form, mtype, name.upper(), self.per, self.x, self.w, self.d, "|I16" if wide else ""))
         for c, col in enumerate(M):
             strs = strings_of(col)
             if not strs:
